@@ -51,6 +51,8 @@ type Val struct {
 	btyp     types.Type
 	fn       *ssa.Function
 	bindings []*Val
+	mapFrozen   bool   // the map held in this location never has its entries' objects modified (declared field invariant)
+	frozenIn    string // this pointer was read from a frozen registry: the presence term of that lookup
 	mapDistinct bool // the map held in this location keeps one value object per key (declared field invariant)
 	mapNonNil bool  // the map held in this location stores only non-nil values (declared field invariant)
 	guard    string // lock identity that must be held to use this location / map (guardedby)
@@ -83,6 +85,7 @@ const (
 type Cmd struct {
 	kind cmdKind
 	text string
+	alt  string // text used instead in the quantifier-light (model finding) variant of the query
 	ob   *Obligation
 }
 
@@ -134,6 +137,7 @@ type Unit struct {
 	globalInvsUsed []string
 	alloc0      string
 	locksUsed   bool
+	frozenHeaps   map[string]*types.Map // pointee heaps of "frozen" registries -> the registry's map type
 	distinctHeaps map[string]string // map-value heaps of "distinct" registries -> key sort
 	pendingMapWF  [][2]string       // heap versions (term, key sort) whose stored pointers still need the older-than-alloc fact
 }
